@@ -98,7 +98,7 @@ def mg2(F, R):
               "merge() changes graph state directly (%s) instead of through add/bind/put/next_id: the GC state it leaves "
               "behind is not one those calls produce" % e.kind)
     calls = [e for e in c.raw if e.kind == "call" and e.callee.get("local") and e.name in ("add", "bind", "put", "next_id") and not in_exempt(c, e)]
-    R.floor("MG2", "add/bind/put/next_id calls in merge()", len(calls), 5, c.merge.where())
+    R.floor("MG2", "add/bind/put/next_id calls in merge()", len(calls), 3, c.merge.where())
     for e in calls:
         if strip_load(e.args[0]) != ("param", 1):
             R.bad("MG2", "MG2/%s/mutator-on-other-graph/%s" % (e.fn_key(), e.name), e.where(), "merge() calls %s on a graph other than the left one" % e.name)
@@ -144,7 +144,7 @@ def mg3456(F, R):
         return False
     # ---- MG3
     binds = [e for e in raw if e.kind == "call" and e.name == "bind" and e.callee.get("local")]
-    R.floor("MG3", "bind calls in the descent", len(binds), 2, rec.where())
+    R.floor("MG3", "bind calls in the descent", len(binds), 1, rec.where())
     for e in binds:
         lbl = label_of(e.args[3])
         detail = {"guards": [show(f, e.body) for f in e.facts if "Level" not in repr(f)]}
